@@ -167,6 +167,19 @@ func c08Gen(tier string, seed int64) []fw.Case {
 			}
 		}
 	}
+	// a message made of a very long run of EMPTY fragments: what receiving it costs (heap and goroutine stack) is
+	// bounded by what is delivered, not by the number of frames
+	for i, role := range bothRoles {
+		for j, nf := range []int{100000, 400000} {
+			for k, comp := range []bool{false, true} {
+				if tier == "quick" && (i+j+k)%2 == 1 {
+					continue
+				}
+				add(c08Desc{Kind: "empty-frames", Role: role, Sent: nf, Params: wire.Params{Deflate: comp}, Reader: []readMode{{"Read", 0}, {"Reader", 4096}}[(i+j)%2], Limit: []int64{-2, 100}[k], Seed: rng.U64()},
+					fmt.Sprintf("empty-frames/%s/%d/compressed=%v", role, nf, comp))
+			}
+		}
+	}
 	// declared lengths
 	for _, role := range bothRoles {
 		for _, decl := range []uint64{1 << 20, 1 << 27, 1 << 31, 1 << 40, 1<<62 + 5, 1<<63 - 1} {
@@ -185,6 +198,22 @@ func c08Gen(tier string, seed int64) []fw.Case {
 						add(c08Desc{Kind: "declared", Role: role, Declared: decl, Sent: 10 + int(decl%7), Then: then, Reader: rd, Limit: lim, Seed: rng.U64()},
 							fmt.Sprintf("declared/%s/2^%d/%s/%s/limit=%d", role, bitLen(decl), then, rd, lim))
 					}
+				}
+			}
+			// the frame declares far more than ever arrives, but MORE THAN THE LIMIT does arrive and then the peer
+			// falls silent with the connection open: the read fails and 1009 is sent as soon as the limit is
+			// exceeded, not when (if ever) the declared length has arrived
+			for li, lim := range []int64{100, 4096, -2} {
+				for ri, rd := range []readMode{{"Read", 0}, {"Reader", 4096}, {"Reader", 1}} {
+					if tier == "quick" && (li+ri+bitLen(decl))%2 == 1 {
+						continue
+					}
+					eff := lim
+					if lim == -2 {
+						eff = 32768
+					}
+					add(c08Desc{Kind: "declared", Role: role, Declared: decl, Sent: int(eff) + []int{1, 2, 1000, 5000}[(li+ri+int(decl%3))%4], Then: "stall-over-limit", Reader: rd, Limit: lim, Seed: rng.U64()},
+						fmt.Sprintf("declared/%s/2^%d/stall-over-limit/%s/limit=%d", role, bitLen(decl), rd, lim))
 				}
 			}
 		}
@@ -216,8 +245,111 @@ func c08Run(r *fw.R, d c08Desc) {
 		c08Bomb(r, d)
 	case "declared":
 		c08Declared(r, d)
+	case "empty-frames":
+		c08EmptyFrames(r, d)
 	case "wsjson":
 		c08WSJSON(r, d)
+	}
+}
+
+// c08EmptyFrames: one message = a first frame, d.Sent empty continuation frames, a final frame with a few bytes.
+// While it is read a sampler records the process's goroutine stack memory and the heap allocated.
+func c08EmptyFrames(r *fw.R, d c08Desc) {
+	c, _, peerEnd, err := libConn(d.Role, d.Params, 0, xport.Plan{}, xport.Plan{NoTap: true})
+	if err != nil {
+		r.Violate("C08/attach-failed", err.Error(), "")
+		return
+	}
+	defer c.CloseNow()
+	defer peerEnd.Close()
+	peer := newRawPeer(peerEnd, d.Role, d.Params, d.Seed)
+	peer.Start()
+	if d.Limit != -2 {
+		c.SetReadLimit(d.Limit)
+	}
+	body := []byte("hello")
+	payload := body
+	if d.Params.Deflate {
+		payload = (&wire.Deflater{}).Message(body, 6, wire.EndSync)
+	}
+	var stream []byte
+	stream = append(stream, peer.Mask(wire.Frame{Op: wire.OpBinary, Rsv1: d.Params.Deflate, LenForm: -1}).Bytes()...)
+	empty := wire.Frame{Op: wire.OpCont, LenForm: -1}
+	for i := 0; i < d.Sent; i++ {
+		stream = append(stream, peer.Mask(empty).Bytes()...)
+	}
+	stream = append(stream, peer.Mask(wire.Frame{Fin: true, Op: wire.OpCont, Payload: payload, LenForm: -1}).Bytes()...)
+	what := fmt.Sprintf("%s %s message of %d empty fragments and a final frame of %d bytes (%d bytes on the wire), reader=%s", d.Role, paramsKey(d.Params), d.Sent, len(body), len(stream), d.Reader)
+	r.Key("empty-frames/%s/%s/%d/%s", d.Role, paramsKey(d.Params), d.Sent, d.Reader.Kind)
+	runtime.GC()
+	var m0 runtime.MemStats
+	runtime.ReadMemStats(&m0)
+	stop := make(chan struct{})
+	done := make(chan struct{})
+	var maxStack uint64
+	go func() {
+		defer close(done)
+		var m runtime.MemStats
+		for {
+			runtime.ReadMemStats(&m)
+			if m.StackInuse > maxStack {
+				maxStack = m.StackInuse
+			}
+			select {
+			case <-stop:
+				return
+			case <-time.After(2 * time.Millisecond):
+			}
+		}
+	}()
+	go func() {
+		// (in pieces: the transport's window is finite)
+		for len(stream) > 0 {
+			n := min(len(stream), 64<<10)
+			if peer.SendBytes(stream[:n]) != nil {
+				return
+			}
+			stream = stream[n:]
+		}
+	}()
+	ctx, cancel := context.WithTimeout(context.Background(), 60*time.Second)
+	defer cancel()
+	var got []byte
+	var rerr error
+	if d.Reader.Kind == "Read" {
+		_, got, rerr = c.Read(ctx)
+	} else {
+		var rd io.Reader
+		_, rd, rerr = c.Reader(ctx)
+		if rerr == nil {
+			got, rerr = io.ReadAll(rd)
+		}
+	}
+	close(stop)
+	<-done
+	var m1 runtime.MemStats
+	runtime.ReadMemStats(&m1)
+	if m1.StackInuse > maxStack {
+		maxStack = m1.StackInuse
+	}
+	r.Count("messages_of_100000_or_more_empty_fragments", 1)
+	if ctx.Err() != nil {
+		return // (the harness's own budget ran out on a loaded machine: no verdict)
+	}
+	if rerr != nil || !bytes.Equal(got, body) {
+		r.Violate("C08/message-within-limit-not-delivered/empty-fragments", fmt.Sprintf("%s: got %d bytes, err=%v", what, len(got), rerr), "")
+		return
+	}
+	r.Count("messages_within_limit_delivered", 1)
+	grow := int64(maxStack) - int64(m0.StackInuse)
+	r.Max("empty_fragments_stack_growth_bytes", grow)
+	if bound := int64(8 << 20); grow > bound {
+		r.Violate("C08/memory-grows-with-number-of-frames/stack", fmt.Sprintf("%s: goroutine stack memory grew by %d bytes while %d bytes were delivered (bound %d)", what, grow, len(body), bound), "")
+	}
+	heap := int64(m1.TotalAlloc - m0.TotalAlloc)
+	r.Max("empty_fragments_heap_alloc_bytes", heap)
+	if bound := int64(len(stream))*4 + 16<<20; heap > bound {
+		r.Violate("C08/memory-grows-with-number-of-frames/heap", fmt.Sprintf("%s: %d bytes allocated while %d bytes were delivered (bound %d)", what, heap, len(body), bound), "")
 	}
 }
 
@@ -622,6 +754,9 @@ func c08Declared(r *fw.R, d c08Desc) {
 	if d.Then == "stall" {
 		tmo = 300 * time.Millisecond
 	}
+	if d.Then == "stall-over-limit" {
+		tmo = 8 * time.Second
+	}
 	ctx, cancel := context.WithTimeout(context.Background(), tmo)
 	defer cancel()
 	runtime.GC()
@@ -671,6 +806,30 @@ func c08Declared(r *fw.R, d c08Desc) {
 	}
 	alloc := int64(totalAlloc() - a0)
 	r.Max("declared_alloc_bytes", alloc)
+	if d.Then == "stall-over-limit" {
+		r.Count("declared_frames_that_exceed_the_limit_and_then_stall", 1)
+		ended := ctx.Err() != nil
+		saw1009 := peer.Wait(3*time.Second, func() bool { return peer.Conf.CloseSeen })
+		code := -1
+		peer.Locked(func() { code = peer.Conf.CloseCode })
+		switch {
+		case rerr == nil:
+			r.Violate("C08/message-over-limit-delivered/declared-and-stalled", what+": reported complete", "")
+		case delivered > eff+1:
+			r.Violate("C08/more-than-limit+1-bytes-handed-out/declared-and-stalled", fmt.Sprintf("%s: %d bytes handed to the caller", what, delivered), "")
+		case ended && !saw1009:
+			r.Violate("C08/over-limit-read-not-failed/declared-and-stalled", fmt.Sprintf("%s: %d bytes over the limit had arrived, yet the read went on until its context ended after %v (%v) and no Close frame was sent", what, int64(d.Sent)-eff, tmo, rerr), "")
+		case !saw1009 || code != 1009:
+			r.Violate("C08/no-1009-close/declared-and-stalled", fmt.Sprintf("%s: the read failed with %v; Close frame seen by the peer: %v (code %d)", what, rerr, saw1009, code), "")
+		default:
+			r.Count("messages_over_limit_rejected", 1)
+			r.Count("close_1009_seen", 1)
+		}
+		if bound := int64(3 << 20); alloc > bound {
+			r.Violate("C08/memory-grows-with-declared-length", fmt.Sprintf("%s: %d bytes allocated while only %d payload bytes ever arrived (bound %d)", what, alloc, d.Sent, bound), "")
+		}
+		return
+	}
 	if rerr == nil || errors.Is(rerr, io.EOF) && delivered < int64(d.Sent) {
 		if rerr == nil {
 			r.Violate("C08/truncated-frame-delivered", what+": reported complete", "")
